@@ -185,6 +185,19 @@ def r4_error_vs_empty(ctx, res):
     if "find_lexicons(lexicon or '*', lang=lang)" not in s or dm not in s:
         res.find(key, wi.module.loc(wi.node), "Wordnet.__init__ no longer selects with find_lexicons(lexicon or '*', lang=lang) / default mode "
                                               'iff neither lexicon nor lang is given')
+    # the request reaches the query unmodified: lexicon and lang are never re-bound on the way (the stored language tag and
+    # the stored id:version are compared as given; a normalisation applied on one side only makes lexicons unselectable)
+    from ..pyutil import binding_sites
+    for fobj, pnames in ((wi, ('lexicon', 'lang')), (lx, ('lexicon', 'lang')), (f, ('lexicon', 'lang')), (rm_f(ctx), ('lexicon',))):
+        for pn in pnames:
+            key = f'argument-unmodified:{fobj.qualname}:{pn}'
+            kinds = [b[0] for b in binding_sites(fobj.node, pn)]
+            res.inst(key, fobj.module.loc(fobj.node), f'bindings {kinds}')
+            if kinds != ['param']:
+                res.find(key, fobj.module.loc(fobj.node),
+                         f'{fobj.qualname} re-binds its `{pn}` argument ({kinds}) before it is used for the selection: the value that '
+                         f'reaches `id || ":" || version GLOB ...` / `language = ...` is no longer what the caller asked for, while the '
+                         f'stored attributes are compared as they are in the document')
     rm = ctx.repo.func('_add', 'remove')
     key = 'remove-uses-find_lexicons'
     res.inst(key, rm.module.loc(rm.node), 'find_lexicons(lexicon=lexicon)')
@@ -197,10 +210,14 @@ def r5_selection_before_write(ctx, res):
     r9_selection_materialised(ctx, res)
 
 
+def rm_f(ctx):
+    return ctx.repo.func('_add', 'remove')
+
+
 RULES = [
     ('C08-R1', r1_non_interference, 2),
     ('C08-R2', r2_limit_order, 2),
     ('C08-R3', r3_match_shape, 3),
-    ('C08-R4', r4_error_vs_empty, 6),
+    ('C08-R4', r4_error_vs_empty, 12),
     ('C08-R5', r5_selection_before_write, 3),
 ]
